@@ -4,6 +4,7 @@
 # (VERIF_REPO), prints one line per check and removes the copy.  Development helper only.
 set -u
 P="$(readlink -f "$1")"; shift
+V="$(cd "$(dirname "$(readlink -f "$0")")/.." && pwd)"   # the verification tree this script lives in
 D=/tmp/atree-mut-$$
 rm -rf "$D"; cp -r /repo "$D"
 if [[ "$P" == *.py ]]; then (cd "$D" && python3 "$P") || { echo "patch script failed"; rm -rf "$D"; exit 2; }
@@ -11,13 +12,13 @@ else (cd "$D" && git apply "$P") || { echo "git apply failed"; rm -rf "$D"; exit
 (cd "$D" && GOFLAGS=-mod=mod GOPROXY=off go build ./... ) || { echo "mutant does not build"; rm -rf "$D"; exit 2; }
 # private copies of the Lean package and work dir: regenerated constants of the mutant must not
 # leak into checks that run concurrently against /repo
-L=/tmp/lean-mut-$$; rm -rf "$L"; cp -r /verif/lean "$L"
+L=/tmp/lean-mut-$$; rm -rf "$L"; cp -r "$V/lean" "$L"
 for c in "$@"; do
-  out=$(cd /verif && VERIF_REPO="$D" VERIF_LEAN="$L" VERIF_WORK="/tmp/work-mut-$$" VERIF_BINTAG="mut-$$-$c" ./check "$c" 2>&1 | grep -E "^VIOLATION|ok \(|MACHINERY" | head -3 | tr '\n' ' ')
+  out=$(cd "$V" && VERIF_REPO="$D" VERIF_LEAN="$L" VERIF_WORK="/tmp/work-mut-$$" VERIF_BINTAG="mut-$$-$c" ./check "$c" 2>&1 | grep -E "^VIOLATION|ok \(|MACHINERY" | head -3 | tr '\n' ' ')
   echo "$c: $out"
   for r in /tmp/work-mut-$$/replays/$c-*.json; do
-    [ -f "$r" ] && python3 /verif/tools/showreplay.py "$r"
+    [ -f "$r" ] && python3 "$V/tools/showreplay.py" "$r"
   done
 done
 rm -rf "$D" "$L" /tmp/work-mut-$$
-rm -rf /verif/harness/bin/mut-$$-*
+rm -rf "$V"/harness/bin/mut-$$-*
